@@ -1859,6 +1859,131 @@ def staledep(fn):
 
 
 # --------------------------------------------------------------------------
+# MEMOKEY
+# --------------------------------------------------------------------------
+def memokey(fn):
+    """A function that looks a key up in a table it did not make (a
+    parameter, a module-level name, an attribute), returns / uses what it
+    finds and otherwise stores a freshly computed value under that key: the
+    value must be determined by the key.  Reported when the value computed
+    depends on a parameter of the function that the key does not (the
+    parameter is left out of the key): two calls that differ only in that
+    parameter share one entry, and the second gets the first one's
+    answer."""
+    out = []
+    a = fn.args
+    params = [x.arg for x in a.posonlyargs + a.args + a.kwonlyargs]
+    pset = set(params) - {"self", "cls"}
+    if not pset:
+        return out
+    # locals -> parameters they are computed from (single pass, repeated)
+    deps = {p_: {p_} for p_ in pset}
+    assigns = [n for n in _own_nodes(fn) if isinstance(n, (ast.Assign,
+                                                             ast.AugAssign,
+                                                             ast.For))]
+
+    def expr_deps(e):
+        d = set()
+        for x in ast.walk(e):
+            if isinstance(x, ast.Name) and isinstance(x.ctx, ast.Load):
+                d |= deps.get(x.id, set())
+        return d
+    for _ in range(4):
+        for n in assigns:
+            if isinstance(n, ast.For):
+                src = expr_deps(n.iter)
+                tgts = _names_stored(n.target)
+            elif isinstance(n, ast.AugAssign):
+                src = expr_deps(n.value)
+                tgts = _names_stored(n.target)
+            else:
+                src = expr_deps(n.value)
+                tgts = [x for t in n.targets for x in _names_stored(t)]
+            for t in tgts:
+                if t not in pset:
+                    deps[t] = deps.get(t, set()) | src
+    fresh = set()
+    for n in _own_nodes(fn):
+        if isinstance(n, ast.Assign) and len(n.targets) == 1 and \
+                isinstance(n.targets[0], ast.Name) and \
+                _fresh_mutable(n.value, fn):
+            fresh.add(n.targets[0].id)
+    for st in _own_nodes(fn):
+        if not (isinstance(st, ast.Assign) and len(st.targets) == 1 and
+                isinstance(st.targets[0], ast.Subscript)):
+            continue
+        tgt = st.targets[0]
+        cont = tgt.value
+        root = cont
+        while isinstance(root, ast.Attribute):
+            root = root.value
+        if not isinstance(root, ast.Name) or root.id in fresh:
+            continue
+        if isinstance(cont, ast.Name) and cont.id not in params and any(
+                isinstance(x, ast.Name) and x.id == cont.id and
+                isinstance(x.ctx, ast.Store) for x in _own_nodes(fn)):
+            continue            # a table made here
+        kd = ast.dump(tgt.slice)
+        cd = ast.dump(cont)
+        # the same key looked up in the same table elsewhere in fn
+        looked = False
+        for n in _own_nodes(fn):
+            if isinstance(n, ast.Subscript) and isinstance(n.ctx, ast.Load) \
+                    and ast.dump(n.value) == cd and ast.dump(n.slice) == kd:
+                looked = True
+            elif isinstance(n, ast.Compare) and len(n.ops) == 1 and \
+                    isinstance(n.ops[0], (ast.In, ast.NotIn)) and \
+                    ast.dump(n.comparators[0]) == cd and \
+                    ast.dump(n.left) == kd:
+                looked = True
+            elif isinstance(n, ast.Call) and isinstance(
+                    n.func, ast.Attribute) and n.func.attr == "get" and \
+                    ast.dump(n.func.value) == cd and n.args and \
+                    ast.dump(n.args[0]) == kd:
+                looked = True
+        if not looked:
+            continue
+        # ... and what is found there is what the function answers with
+        # (``return table[key]`` / ``v = table[key]`` ... ``return v``): a
+        # read-modify-write of a table entry is not a memo
+        def is_lookup(e):
+            if isinstance(e, ast.Subscript) and ast.dump(e.value) == cd \
+                    and ast.dump(e.slice) == kd:
+                return True
+            return isinstance(e, ast.Call) and isinstance(
+                e.func, ast.Attribute) and e.func.attr == "get" and \
+                ast.dump(e.func.value) == cd and bool(e.args) and \
+                ast.dump(e.args[0]) == kd
+        answered = False
+        for r in _own_nodes(fn):
+            if not isinstance(r, (ast.Return, ast.Yield)) or \
+                    r.value is None:
+                continue
+            if is_lookup(r.value):
+                answered = True
+            elif isinstance(r.value, ast.Name):
+                for n in _own_nodes(fn):
+                    if isinstance(n, ast.Assign) and len(n.targets) == 1 \
+                            and _is_name(n.targets[0], r.value.id) and \
+                            is_lookup(n.value):
+                        answered = True
+        if not answered:
+            continue
+        kdeps = expr_deps(tgt.slice)
+        vdeps = expr_deps(st.value)
+        missing = vdeps - kdeps - {root.id}
+        if not missing or not kdeps:
+            continue
+        out.append((st, "%s files a value under the key %s and looks the "
+                    "same key up to answer later calls, but the value is "
+                    "computed from %s too, which the key leaves out: calls "
+                    "that differ only there share one entry" % (
+                        fn.name, _txt(tgt.slice, 40),
+                        ", ".join(sorted(missing)))))
+    return out
+
+
+# --------------------------------------------------------------------------
 # CACHEDMUT
 # --------------------------------------------------------------------------
 _MUT_CTORS = {"dict", "list", "set", "bytearray", "defaultdict",
@@ -1967,7 +2092,8 @@ def findings(program, modules):
                             ("CACHEDMUT", lambda d=d: cachedmut(d)),
                             ("SNAPSHOT", lambda d=d: snapshot(d)),
                             ("FINALLYLOST", lambda d=d: finallylost(d)),
-                            ("STALEDEP", lambda d=d: staledep(d))):
+                            ("STALEDEP", lambda d=d: staledep(d)),
+                            ("MEMOKEY", lambda d=d: memokey(d))):
                 for n, text in f():
                     out.append((kind, mname, q, n, text, _txt(n, 50)))
     return out, stats
@@ -1976,7 +2102,7 @@ def findings(program, modules):
 _SELFTEST = []
 KINDS = ("UNDEF", "SELFATTR", "CALLSIG", "EXHAUST", "ITERMUT", "LATEBIND",
          "INTDIV", "SHADOW", "SWALLOW", "UNBOUND", "CACHEDMUT", "SNAPSHOT",
-         "FINALLYLOST", "STALEDEP")
+         "FINALLYLOST", "STALEDEP", "MEMOKEY")
 
 
 def selftest():
